@@ -27,10 +27,12 @@ RULE = ('Include graphs of 1-6 files in a fresh temporary directory tree (sub-di
         '(untranslated) reading of the file, unchanged files are not rewritten, removed entries are gone, added entries exist, the mapping keys '
         'are the normalised reachable set computed by the harness from the graph, every file is parsed exactly once, a file with exactly one effective edit differs from its old bytes only by the shape of that edit (pure insertion for an appended directive, date characters only for a re-valued date, within one line for a re-worded comment; independent of the model operations), and a raising body '
         'leaves every file untouched. Non-trivial = >= 3 files with a cycle, diamond or glob; or CR content with an edit; or a non-absolute '
-        'root spelling; or a raising body after an edit.')
+        'root spelling; or a raising body after an edit. Editing-sessions job: one ledger of one-line transactions (3-30 lines with store blocks of 4 tokens, 50-1500 lines with the real block size; LF or CRLF), '
+        '3-40 edits inside one edit_file block (tags appended, directives deleted at the beginning / end / anywhere, directives appended); oracle: the non-empty lines of the written file equal the list of lines '
+        'the harness maintains with string operations only; non-trivial = >= 5 edits.')
 ASSUMPTIONS = ['symlinks, absolute includes under a relative root, non-UTF-8 and unwritable files are not generated (the property does not speak about them)']
-SHRINK_LISTS = ('edits',)
-REQUIRED_CLASSES = ('shape:append', 'shape:tokval', 'shape:comment', 'spelling:symlink', 'workspace-dir-with-glob-chars', 'mode:recursive', 'mode:single', 'cr-content-edited', 'spelling:bare', 'spelling:abs', 'glob', 'cycle', 'raise-after-edit',
+SHRINK_LISTS = ('edits', 'session')
+REQUIRED_CLASSES = ('session:lf:4', 'session:lf:1000', 'session:crlf', 'shape:append', 'shape:tokval', 'shape:comment', 'spelling:symlink', 'workspace-dir-with-glob-chars', 'mode:recursive', 'mode:single', 'cr-content-edited', 'spelling:bare', 'spelling:abs', 'glob', 'cycle', 'raise-after-edit',
                     'removed-entry', 'added-entry')
 
 OLD_NS = 1_000_000_000 * 10 ** 9 // 10 ** 9 * 10 ** 9  # a fixed old mtime (2001)
@@ -144,10 +146,61 @@ def run_case(case: dict) -> Result:
     tmp = tempfile.mkdtemp(prefix='vf-c16-')
     cwd = os.getcwd()
     try:
+        if case.get('session'):
+            return _run_session(case, res, tmp)
         return _run(case, res, tmp)
     finally:
         os.chdir(cwd)
         shutil.rmtree(tmp, ignore_errors=True)
+
+
+def _run_session(case: dict, res: Result, tmp: str) -> Result:
+    """A longer editing session on one ledger of one-line transactions, judged against a list of lines kept by the harness
+    (no model operations on the expected side): tags appended to a transaction extend its line, a deleted directive removes its
+    line, an appended directive adds a line. With small store blocks the session splits, merges and re-balances blocks."""
+    from vf.gen import store as GS
+    lf = int(case.get('lf', 1000))
+    eol = case.get('eol', '\n')
+    lines = ['2000-01-%02d * "n%d"' % (i % 28 + 1, i) for i in range(case['n'])]
+    path = os.path.join(tmp, 'main.bean')
+    with open(path, 'w', newline='') as f:
+        f.write(''.join(x + eol for x in lines))
+    old = GS.set_lf(lf)
+    try:
+        ed = editor_lib.Editor(parser=common.parser())
+        with ed.edit_file(path) as file:
+            for op in case['session']:
+                n = len(lines)
+                if op[0] == 'tags' and n:
+                    i = op[1] % n
+                    if ' close ' in lines[i]:
+                        continue
+                    new = ['t%d-%d' % (op[1], k) for k in range(op[2])]
+                    file.raw_directives[i].tags.extend(new)
+                    lines[i] += ''.join(' #' + t for t in new)
+                elif op[0] == 'del' and n:
+                    i = op[1] % n
+                    del file.raw_directives[i]
+                    del lines[i]
+                elif op[0] == 'app':
+                    file.raw_directives.append(models.Close.from_value(datetime.date(2001, 2, 3), 'Assets:New%d' % op[1]))
+                    lines.append('2001-02-03 close Assets:New%d' % op[1])
+    except Exception as e:  # noqa: BLE001
+        res.bad(f'editor-raised:session:{type(e).__name__}', f'the editing session raised {e!r} (ops {case["session"][:20]}...)')
+        return res
+    finally:
+        GS.restore_lf(old)
+    got = open(path, 'rb').read().decode('utf-8')
+    got_lines = [x for x in got.replace('\r\n', '\n').split('\n') if x]
+    if got_lines != lines:
+        k = next((i for i, (a, b) in enumerate(zip(got_lines, lines)) if a != b), min(len(got_lines), len(lines)))
+        res.bad('session-content', f'after a session of {len(case["session"])} edits (blocks of {lf}) the file has {len(got_lines)} lines, the harness\'s line list '
+                f'{len(lines)}; first difference at line {k}: file {got_lines[k:k + 2]!r}, expected {lines[k:k + 2]!r}')
+    elif eol == '\r\n' and got.count('\r') < sum(1 for _ in lines) - sum(1 for op in case['session'] if op[0] == 'app') - 1:
+        res.bad('content:carriage-returns-lost', f'a CRLF ledger edited in a session keeps {got.count(chr(13))} carriage returns for {len(lines)} lines')
+    res.classes = ['session', 'session:lf:%d' % lf, 'session:crlf' if eol == '\r\n' else 'session:lf-ends']
+    res.nontrivial = len(case['session']) >= 5
+    return res
 
 
 def _spell(root: str, spelling: str, tmp: str) -> Any:
@@ -478,5 +531,25 @@ def _build(tier: str):
     return build
 
 
+def _build_session(tier: str):
+    def build(rnd: Any) -> dict:
+        lf = 4 if rnd.random() < 0.8 else 1000
+        n = rnd.randint(3, 30) if lf == 4 else rnd.randint(50, 400 if tier == 'quick' else 1500)
+        ops = []
+        for _ in range(rnd.randint(3, 40)):
+            r = rnd.random()
+            if r < 0.4:
+                ops.append(['tags', rnd.randint(0, 2000), rnd.randint(1, 10 if lf == 4 else 300)])
+            elif r < 0.85:
+                # deletions concentrated at the beginning, the end or anywhere
+                where = rnd.random()
+                ops.append(['del', 0 if where < 0.4 else -1 if where < 0.5 else rnd.randint(0, 2000)])
+            else:
+                ops.append(['app', rnd.randint(0, 99)])
+        return {'session': ops, 'n': n, 'lf': lf, 'eol': '\r\n' if rnd.random() < 0.25 else '\n'}
+    return build
+
+
 def jobs(tier: str) -> list[Job]:
-    return [Job('graphs', 'hyp', lambda: _build(tier), 1500 if tier == 'quick' else 30000)]
+    return [Job('graphs', 'hyp', lambda: _build(tier), 1500 if tier == 'quick' else 30000),
+            Job('editing-sessions', 'hyp', lambda: _build_session(tier), 600 if tier == 'quick' else 20000)]
